@@ -238,6 +238,155 @@ theorem color_eq (cr : ColorRange) (hs : cr.domain.Pairwise (· < ·)) (hc : cr.
     subst hva
     rw [factor_hi hlt, factor_lo, blendRGB_one, blendRGB_zero]
 
+/-- Discrete intermediate value: a value above the first stop and at most the last one lies in
+    some half-open interval `(d k, d (k+1)]`. -/
+theorem interval_exists (v : Rat) : ∀ (l : List Rat) (d0 dl : Rat), l[0]? = some d0 →
+    l.getLast? = some dl → d0 < v → v ≤ dl →
+    ∃ k a b, l[k]? = some a ∧ l[k + 1]? = some b ∧ a < v ∧ v ≤ b
+  | [], _, _, h0, _, _, _ => by simp at h0
+  | [x], d0, dl, h0, hl, h1, h2 => by
+    simp at h0 hl
+    subst h0; subst hl
+    exact absurd h1 (not_lt.mpr h2)
+  | x :: y :: rest, d0, dl, h0, hl, h1, h2 => by
+    simp at h0
+    subst h0
+    by_cases hy : v ≤ y
+    · exact ⟨0, x, y, by simp, by simp, h1, hy⟩
+    · have hl' : (y :: rest).getLast? = some dl := by
+        rw [List.getLast?_cons_cons] at hl; exact hl
+      obtain ⟨k, a, b, ha, hb, hav, hvb⟩ :=
+        interval_exists v (y :: rest) y dl (by simp) hl' (not_le.mp hy) h2
+      exact ⟨k + 1, a, b, by simpa using ha, by simpa using hb, hav, hvb⟩
+
+theorem round_neg (x : Rat) : Py.round (-x) = -Py.round x := by
+  have hfx := Rat.floor_le x
+  have hfx' := Rat.lt_floor_add_one x
+  by_cases hint : x = (x.floor : Rat)
+  · have h1 : -x = ((-x.floor : Int) : Rat) := by rw [hint]; simp
+    rw [h1, round_intCast]
+    have h2 : Py.round x = x.floor := by rw [hint]; simp [round_intCast]
+    rw [h2]
+  · have hlt : (x.floor : Rat) < x := lt_of_le_of_ne hfx (fun h => hint h.symm)
+    have hfl : (-x).floor = -x.floor - 1 := by
+      have a1 : -x.floor - 1 ≤ (-x).floor := by
+        rw [Rat.le_floor_iff]; push_cast at hfx' ⊢; linarith
+      have a2 : (-x).floor < -x.floor - 1 + 1 := by
+        rw [Rat.floor_lt_iff]; push_cast; linarith
+      omega
+    unfold Py.round
+    simp only [hfl]
+    push_cast
+    split_ifs <;> first | omega | (exfalso; linarith)
+
+/-! ### Weakly increasing domains (duplicated stops) -/
+
+theorem weak_le_of_le {l : List Rat} (hs : l.Pairwise (· ≤ ·)) {i j : Nat} {a b : Rat}
+    (hi : l[i]? = some a) (hj : l[j]? = some b) (hij : i ≤ j) : a ≤ b := by
+  rcases Nat.lt_or_eq_of_le hij with h | rfl
+  · obtain ⟨hi', rfl⟩ := List.getElem?_eq_some_iff.mp hi
+    obtain ⟨hj', rfl⟩ := List.getElem?_eq_some_iff.mp hj
+    exact (List.pairwise_iff_getElem.mp hs) i j hi' hj' h
+  · rw [hi] at hj; injection hj with h; exact le_of_eq h
+
+/-- On a weakly increasing domain a value *strictly above* stop `k` and at most stop `k + 1` is
+    found in interval `k` (first match: every earlier interval ends below the value). -/
+theorem findInterval_weak (v : Rat) : ∀ (l : List Rat) (i k : Nat) (a b : Rat),
+    l.Pairwise (· ≤ ·) → l[k]? = some a → l[k + 1]? = some b → a < v → v ≤ b →
+    findInterval v l i = some (i + k)
+  | [], _, k, _, _, _, hk, _, _, _ => by simp at hk
+  | [_], _, k, _, _, _, _, hk1, _, _ => by simp at hk1
+  | d :: d' :: rest, i, k, a, b, hs, hk, hk1, hav, hvb => by
+    unfold findInterval
+    by_cases hc : d ≤ v ∧ v ≤ d'
+    · rw [if_pos hc]
+      cases k with
+      | zero => simp
+      | succ k' =>
+        exfalso
+        have hs' : (d' :: rest).Pairwise (· ≤ ·) := (List.pairwise_cons.mp hs).2
+        have h0 : (d' :: rest)[0]? = some d' := by simp
+        have hk' : (d' :: rest)[k']? = some a := by simpa using hk
+        have := weak_le_of_le hs' h0 hk' (Nat.zero_le _)
+        linarith [hc.2]
+    · rw [if_neg hc]
+      cases k with
+      | zero =>
+        simp at hk hk1
+        subst hk; subst hk1
+        exact absurd ⟨le_of_lt hav, hvb⟩ hc
+      | succ k' =>
+        have hs' : (d' :: rest).Pairwise (· ≤ ·) := (List.pairwise_cons.mp hs).2
+        have ih := findInterval_weak v (d' :: rest) (i + 1) k' a b hs'
+          (by simpa using hk) (by simpa using hk1) hav hvb
+        rw [ih]; congr 1; omega
+
+/-- Key lemma for weakly increasing domains: a value in the half-open interval `(d k, d (k+1)]`
+    gets the blend of colours `k` and `k + 1` with that interval's factor. -/
+theorem color_eq_weak (cr : ColorRange) (hs : cr.domain.Pairwise (· ≤ ·)) (hc : cr.continuous = true)
+    {k : Nat} {a b v : Rat} {ca cb : RGB}
+    (hk : cr.domain[k]? = some a) (hk1 : cr.domain[k + 1]? = some b)
+    (hca : cr.colors[k]? = some ca) (hcb : cr.colors[k + 1]? = some cb)
+    (hav : a < v) (hvb : v ≤ b) :
+    cr.color v = .ok (blendRGB (factor a b v) ca cb) := by
+  have hklen : k + 1 < cr.domain.length := (List.getElem?_eq_some_iff.mp hk1).1
+  have h0 : cr.domain[0]? = some cr.domain[0] := List.getElem?_eq_getElem (by omega)
+  have hl : cr.domain.getLast? = some cr.domain[cr.domain.length - 1] := by
+    rw [List.getLast?_eq_getElem?]
+    exact List.getElem?_eq_getElem (by omega)
+  have hl' : cr.domain[cr.domain.length - 1]? = some cr.domain[cr.domain.length - 1] :=
+    List.getElem?_eq_getElem (by omega)
+  have hd0 : cr.domain[0] ≤ a := weak_le_of_le hs h0 hk (Nat.zero_le _)
+  have hdl : b ≤ cr.domain[cr.domain.length - 1] := weak_le_of_le hs hk1 hl' (by omega)
+  unfold ColorRange.color
+  simp only [h0, hl]
+  rw [if_neg (by intro h; linarith), if_neg (by intro h; linarith),
+    findInterval_weak v cr.domain 0 k a b hs hk hk1 hav hvb]
+  simp only [Nat.zero_add, hc, if_true, hk, hk1, hca, hcb]
+
+/-- The same for segmented ranges: the colour of the interval. -/
+theorem color_seg_weak (cr : ColorRange) (hs : cr.domain.Pairwise (· ≤ ·)) (hc : cr.continuous = false)
+    {k : Nat} {a b v : Rat} {cb : RGB}
+    (hk : cr.domain[k]? = some a) (hk1 : cr.domain[k + 1]? = some b)
+    (hcb : cr.colors[k + 1]? = some cb) (hav : a < v) (hvb : v ≤ b) :
+    cr.color v = .ok cb := by
+  have hklen : k + 1 < cr.domain.length := (List.getElem?_eq_some_iff.mp hk1).1
+  have h0 : cr.domain[0]? = some cr.domain[0] := List.getElem?_eq_getElem (by omega)
+  have hl : cr.domain.getLast? = some cr.domain[cr.domain.length - 1] := by
+    rw [List.getLast?_eq_getElem?]
+    exact List.getElem?_eq_getElem (by omega)
+  have hl' : cr.domain[cr.domain.length - 1]? = some cr.domain[cr.domain.length - 1] :=
+    List.getElem?_eq_getElem (by omega)
+  have hd0 : cr.domain[0] ≤ a := weak_le_of_le hs h0 hk (Nat.zero_le _)
+  have hdl : b ≤ cr.domain[cr.domain.length - 1] := weak_le_of_le hs hk1 hl' (by omega)
+  unfold ColorRange.color
+  simp only [h0, hl]
+  rw [if_neg (by intro h; linarith), if_neg (by intro h; linarith),
+    findInterval_weak v cr.domain 0 k a b hs hk hk1 hav hvb]
+  simp [hc, getE, hcb]
+
+/-- The value of the first stop is found in the first interval. -/
+theorem color_first_stop (cr : ColorRange) (hs : cr.domain.Pairwise (· ≤ ·))
+    (h2 : 2 ≤ cr.domain.length) :
+    ∃ d0 d1, cr.domain[0]? = some d0 ∧ cr.domain[1]? = some d1 ∧ d0 ≤ d1 ∧
+      findInterval d0 cr.domain 0 = some 0 ∧ cr.domain.getLast? = some cr.domain[cr.domain.length - 1] ∧
+      d0 ≤ cr.domain[cr.domain.length - 1] := by
+  have h0 : cr.domain[0]? = some cr.domain[0] := List.getElem?_eq_getElem (by omega)
+  have h1 : cr.domain[1]? = some cr.domain[1] := List.getElem?_eq_getElem (by omega)
+  have hl' : cr.domain[cr.domain.length - 1]? = some cr.domain[cr.domain.length - 1] :=
+    List.getElem?_eq_getElem (by omega)
+  have hl : cr.domain.getLast? = some cr.domain[cr.domain.length - 1] := by
+    rw [List.getLast?_eq_getElem?]; exact hl'
+  have h01 := weak_le_of_le hs h0 h1 (by omega)
+  refine ⟨_, _, h0, h1, h01, ?_, hl, weak_le_of_le hs h0 hl' (by omega)⟩
+  obtain ⟨d, ds, hds⟩ := List.exists_cons_of_ne_nil (l := cr.domain) (by intro h; simp [h] at h2)
+  obtain ⟨d', ds', hds'⟩ := List.exists_cons_of_ne_nil (l := ds) (by
+    intro h; simp [hds, h] at h2)
+  subst hds'
+  simp only [hds] at h01 ⊢
+  simp at h01 ⊢
+  simp [findInterval, h01]
+
 /-! ### The domain setter -/
 
 theorem sortDom_pair (x y : Rat) : sortDom [x, y] = if x ≤ y then [x, y] else [y, x] := by
@@ -457,6 +606,78 @@ theorem frange_length (step : Rat) (n : Nat) (h : 0 < step) : (frange 0 (step * 
     simp
   rw [List.length_map, List.length_range, hq, Rat.ceil_intCast]
   simp
+
+/-! ### Label content -/
+
+theorem pow10_pos (n : Nat) : (0 : Rat) < Py.pow10 n := by
+  unfold Py.pow10
+  have : 0 < 10 ^ n := Nat.pos_of_ne_zero (by positivity)
+  exact_mod_cast this
+
+theorem round_nonneg {x : Rat} (h : 0 ≤ x) : 0 ≤ Py.round x := by
+  have := round_mono h
+  rwa [show ((0 : Rat)) = ((0 : Int) : Rat) by simp, round_intCast] at this
+
+/-- Token level of `'%.nf'`: the label denotes `round(x, n)` (half to even at the n-th decimal). -/
+theorem tokenValue_fmtToken (x : Rat) (n : Nat) : tokenValue (fmtToken x n) n = Py.roundN x n := by
+  have hp := pow10_pos n
+  unfold tokenValue fmtToken Py.roundN
+  by_cases hx : x < 0
+  · have hnn : 0 ≤ Py.round (-x * Py.pow10 n) := round_nonneg (by nlinarith)
+    have hcast : (((Py.round (-x * Py.pow10 n)).toNat : Nat) : Rat) = (Py.round (-x * Py.pow10 n) : Rat) := by
+      have := Int.toNat_of_nonneg hnn
+      exact_mod_cast congrArg (fun z : Int => (z : Rat)) this
+    have hneg : Py.round (-x * Py.pow10 n) = -Py.round (x * Py.pow10 n) := by
+      rw [show -x * Py.pow10 n = -(x * Py.pow10 n) by ring, round_neg]
+    simp only [hx, decide_true, if_true]
+    rw [hcast, hneg]
+    push_cast
+    ring
+  · have hx0 : 0 ≤ x := not_lt.mp hx
+    have hnn : 0 ≤ Py.round (x * Py.pow10 n) := round_nonneg (by nlinarith)
+    have hcast : (((Py.round (x * Py.pow10 n)).toNat : Nat) : Rat) = (Py.round (x * Py.pow10 n) : Rat) := by
+      have := Int.toNat_of_nonneg hnn
+      exact_mod_cast congrArg (fun z : Int => (z : Rat)) this
+    simp only [hx, decide_false, Bool.false_eq_true, if_false]
+    rw [hcast]
+    ring
+
+theorem markEnds_single (x : String) : markEnds [x] = [">" ++ ("<" ++ x)] := by
+  simp [markEnds]
+
+/-- With two or more labels the first gets `<`, the last gets `>`, the others are untouched. -/
+theorem markEnds_ends (x y : String) (mid : List String) :
+    markEnds (x :: (mid ++ [y])) = ("<" ++ x) :: (mid ++ [">" ++ y]) := by
+  simp [markEnds, List.reverse_append]
+
+/-- `ordinal_dictionary[x]`: no integer key equal to the number -> `''`. -/
+theorem ordLookup_none (d : List (Int × String)) (x : Rat) (h : ∀ kv ∈ d, (kv.1 : Rat) ≠ x) :
+    ordLookup d x = "" := by
+  unfold ordLookup
+  have : d.find? (fun kv => decide ((kv.1 : Rat) = x)) = none := by
+    rw [List.find?_eq_none]
+    intro kv hkv
+    simpa using h kv hkv
+  rw [this]
+
+/-- `ordinal_dictionary[x]`: the text of the (unique) key equal to the number. -/
+theorem ordLookup_some (d : List (Int × String)) (x : Rat) (k : Int) (t : String)
+    (hmem : (k, t) ∈ d) (hx : (k : Rat) = x)
+    (huniq : ∀ kv ∈ d, kv.1 = k → kv.2 = t) : ordLookup d x = t := by
+  unfold ordLookup
+  cases hf : d.find? (fun kv => decide ((kv.1 : Rat) = x)) with
+  | none =>
+    rw [List.find?_eq_none] at hf
+    have := hf (k, t) hmem
+    simp [hx] at this
+  | some kv =>
+    have hp := List.find?_some hf
+    have hm := List.mem_of_find?_eq_some hf
+    simp only [decide_eq_true_eq] at hp
+    have hk : kv.1 = k := by
+      have : (kv.1 : Rat) = (k : Rat) := by rw [hp, hx]
+      exact_mod_cast this
+    exact huniq kv hm hk
 
 /-- What the constructors guarantee about a legend (proved below for both kinds of parameters). -/
 structure Legend.WF (l : Legend) : Prop where
